@@ -81,7 +81,12 @@ func doOp(api API, op *Op) *Res {
 			r.setFattr(x.Resok.Obj_attributes)
 		}
 	case OpSetattr:
-		x := api.NFSPROC3_SETATTR(nt.SETATTR3args{Object: fh3(op.H), New_attributes: sattrOf(op)})
+		sa := nt.SETATTR3args{Object: fh3(op.H), New_attributes: sattrOf(op)}
+		if op.Guard {
+			sa.Guard.Check = true
+			sa.Guard.Obj_ctime = nt.Nfstime3{Seconds: 12345, Nseconds: 678}
+		}
+		x := api.NFSPROC3_SETATTR(sa)
 		r.Stat = uint32(x.Status)
 		if x.Status == nt.NFS3_OK {
 			r.setAttr(x.Resok.Obj_wcc.After)
